@@ -216,6 +216,20 @@ CHECKS["C18"] = {
     "note": "Trusted: exp/log primitives (C01); NumPy element-wise semantics.",
 }
 
+CHECKS["C04"] = {
+    "engine": "sa",
+    "technique": "coverage (non-interference) analysis of constructor forms, dunder/operator agreement, accessor pairing, structural formula check of the frame-conversion kernels",
+    "design_ref": "DESIGN.md section 4 C04",
+    "text": ("Decides the structural necessary conditions of 'every constructor form means the same pose and the algebra is SE(3)': "
+             "each constructor form reads exactly the elements of its description, one-to-one into the slot of the same "
+             "position (an element never read cannot influence the pose), lengths dispatch to the matching form with the rpy "
+             "flag forwarded; `@`/reflected `@` multiply the 4x4 matrices in operand order and the other dunders apply their own "
+             "operator; inv() is TransInv; the quaternion getter/setter use one convention on one block and re-sync; "
+             "LocalToGlobal/GlobalToLocal are literally ref*rel and inv(ref)*rel in rotation-vector form and the wrappers pass "
+             "(reference, rel) in order. Associativity, inverse laws and cross-form equality to 5e-6 are numerical and not decided."),
+    "note": "Trusted: exp/log/TransInv (C01/C02); scipy Rotation default quaternion convention.",
+}
+
 _PENDING = "rule module not yet built in this round (see DESIGN.md section 4 for the planned static rules)"
 for _i in range(1, 21):
     _p = "C%02d" % _i
